@@ -1,4 +1,5 @@
 import S3V.Gen.Bindings
+import S3V.Gen.Conv
 /-!
 # C02 — the typed input the backend receives equals what the client encoded (property theorems; table half)
 
@@ -24,7 +25,47 @@ theorem C02_wire_names_distinct : ∀ op : Op,
       |>.Nodup := by
   intro op; cases op <;> decide +kernel
 
+/-! ## the SDK-proxy configuration (client → AWS-SDK proxy backend → second adapter)
+
+`S3V.Gen.Conv` is translated on every run from `crates/s3s-aws/src/conv/generated.rs` (344 structures, 65 string
+enums, 3 unions) and from the dto struct definitions; names are compared in normal form (lower case, no
+underscores, `r#` stripped). The SDK's own encoder/decoder is trusted. -/
+
+open S3V.Gen.Conv in
+def sameSet (a b : List Nat) : Bool := a.all b.contains && b.all a.contains && a.length == b.length
+
+open S3V.Gen.Conv in
+def structOk (s : ConvStruct) : Bool :=
+  s.fromPairs.all (fun p => p.1 == p.2) && s.intoPairs.all (fun p => p.1 == p.2) &&
+    sameSet (s.fromPairs.map (·.1)) s.dtoFields && sameSet (s.intoPairs.map (·.2)) s.dtoFields
+
+open S3V.Gen.Conv in
+def enumOk (e : ConvEnum) : Bool := e.pairs.all (fun p => p.1 == p.2)
+
+open S3V.Gen.Conv in
+theorem conv_structs_table : structs.all structOk = true := by decide +kernel
+
+open S3V.Gen.Conv in
+theorem conv_enums_table : (enums.all enumOk && unions.all (fun u => enumOk u.1 && enumOk u.2)) = true := by
+  decide +kernel
+
+open S3V.Gen.Conv in
+/-- every s3s ↔ SDK structure conversion copies field `f` to field `f`, in both directions, and converts every
+    field of the dto structure exactly once: a proxied request or response cannot arrive with a member moved,
+    dropped or duplicated -/
+theorem C02_conv_structs_field_identity : ∀ s ∈ structs, structOk s = true :=
+  List.all_eq_true.mp conv_structs_table
+
+open S3V.Gen.Conv in
+/-- every enum constant and union variant is converted to the like-named one -/
+theorem C02_conv_enums_identity :
+    (∀ e ∈ enums, enumOk e = true) ∧ (∀ u ∈ unions, enumOk u.1 = true ∧ enumOk u.2 = true) := by
+  have h := conv_enums_table
+  rw [Bool.and_eq_true, List.all_eq_true, List.all_eq_true] at h
+  exact ⟨h.1, fun u hu => by simpa [Bool.and_eq_true] using h.2 u hu⟩
+
 /-! non-vacuity: the tables are not empty -/
+example : S3V.Gen.Conv.structs.length > 300 := by decide +kernel
 example : (implInputs .GetObject).length = 21 := by decide
 example : (implInputs .PutObject).length > 30 := by decide
 
